@@ -615,7 +615,10 @@ class RegExFieldFormat(AbstractFieldFormat):
 
     def __init__(self, field_name, is_allowed_to_be_empty, length, rule, data_format):
         super().__init__(field_name, is_allowed_to_be_empty, length, rule, data_format, empty_value="")
-        self.regex = re.compile(rule, re.IGNORECASE | re.MULTILINE)
+        try:
+            self.regex = re.compile(rule, re.IGNORECASE | re.MULTILINE)
+        except re.error as error:
+            raise errors.InterfaceError("rule must be a valid regular expression: %s" % error)
 
     def validated_value(self, value):
         assert value
